@@ -153,6 +153,26 @@ type scenario struct {
 	static bool
 }
 
+// setContact: leader ldr's replication to flr reports that it lost / regained contact.
+func (c *simCluster) setContact(ldr, flr uint64, up bool) {
+	n := c.nodes[ldr]
+	if n == nil || n.cur != Leader {
+		return
+	}
+	rp := n.l.repls[flr]
+	if rp == nil {
+		return
+	}
+	u := replUpdate{&rp.status, noContact{time.Now(), errSimAbort}}
+	if up {
+		u = replUpdate{&rp.status, noContact{time.Time{}, nil}}
+	}
+	c.upd[ldr] = append(c.upd[ldr], u)
+	for len(c.upd[ldr]) > 0 && n.cur == Leader {
+		c.doReplUpdate(n)
+	}
+}
+
 // disconnect: the connection of node id to peer broke (the `disconnected` case of stateLoop).
 func (c *simCluster) disconnect(id, peer uint64) {
 	n := c.nodes[id]
@@ -644,6 +664,38 @@ var scenarios = []scenario{
 			c.snapshotStep(c.nodes[1])
 		}
 		c.replicate(1) // now node 3 too: it is behind the compaction point
+		c.doClient(c.nodes[1], []entryType{entryUpdate})
+		c.replicate(1)
+		c.crash(3, true)
+		c.replicate(1)
+	}, 3, true},
+	{"install-request-delivered-again-after-more-entries", func(c *simCluster) {
+		// node 3 installs a snapshot (its log is replaced and now starts right after it), accepts and
+		// acknowledges more entries, and then the same install request arrives once more (a retry whose
+		// first answer was lost): it must be ignored - nothing acknowledged may be dropped
+		c.elect(1)
+		c.replicate(1)
+		c.setContact(1, 3, false)
+		for k := 0; k < 14; k++ {
+			c.doClient(c.nodes[1], []entryType{entryUpdate, entryUpdate, entryUpdate})
+			c.replicate(1, 2)
+		}
+		for k := 0; k < 3; k++ {
+			c.snapshotStep(c.nodes[1])
+		}
+		c.doClient(c.nodes[1], []entryType{entryUpdate})
+		c.replicate(1, 2)
+		c.setContact(1, 3, true)
+		c.replicate(1) // node 3 is behind the compaction point: it gets the snapshot
+		for k := 0; k < 3; k++ {
+			c.doClient(c.nodes[1], []entryType{entryUpdate})
+			c.replicate(1)
+		}
+		if m := c.lastInstall; m != nil {
+			d := *m
+			c.net = append(c.net, &d)
+			c.deliver(len(c.net) - 1)
+		}
 		c.doClient(c.nodes[1], []entryType{entryUpdate})
 		c.replicate(1)
 		c.crash(3, true)
